@@ -51,7 +51,7 @@ Lemma am_program p :
 Proof.
   intros Hc Hok. unfold program_ok in Hok. apply andb_true_iff in Hok. destruct Hok as [Hsc Hok].
   destruct (scope_ok_spec [] p Hsc) as (Hnd & Hlv & _).
-  set (F0 := mkF O true [] [] O). set (a0 := mkA [F0] 1 []).
+  set (F0 := mkF O true [] [] O O). set (a0 := mkA [F0] 1 []).
   assert (A0 : AInv a0 [(F0, pr0 p)]).
   { constructor.
     - reflexivity.
@@ -64,6 +64,7 @@ Proof.
       + constructor.
       + split; [lia|intros y []].
       + intros g [].
+      + intros _. reflexivity.
     - intros fp [<-|[]]. cbn. lia.
     - intros s x []. }
   destruct (run_core p Hc a0 F0 (pr0 p) [] A0 Hnd) as (a' & fr' & rest' & R & A' & G & P1 & P2 & _ & _ & F & N).
